@@ -839,7 +839,11 @@ func (c *clusterClient) doresultfn(
 				}
 				for ei = i; ei < len(commands) && !isMulti(commands[ei]) && !isExec(commands[ei]); ei++ {
 				}
-				if mi >= 0 && ei < len(commands) && isMulti(commands[mi]) && isExec(commands[ei]) && resps[mi].val.string() == ok { // a transaction is found.
+				// a transaction is found. It is sent again as a whole only because the server refused one of its queued commands
+				// (a redirection or a retryable error reply), which makes EXEC discard the block. After a connection failure
+				// (a retryable command inside the block, with the +OK of MULTI already read) EXEC may have run: the block must
+				// not be repeated.
+				if resp.NonRedisError() == nil && mi >= 0 && ei < len(commands) && isMulti(commands[mi]) && isExec(commands[ei]) && resps[mi].val.string() == ok {
 					mu.Lock()
 					retries.Redirects++
 					nr := retries.m[nc]
